@@ -541,8 +541,29 @@ def order_independence_stage(self, key):
         aff = [rng.random() for _ in range(2 * 2 * 2)]
         for j in range(2):
             lines.append(" ".join(["oi%d.init%d" % (b, j), "initf", "f", "0", "2", "2", str(j + 1)] + gen.flist(ds) + gen.flist(aff[j:] + aff[:j])))
+    # one network of a size where a library might switch strategy (threads, blocking): the same call four times
+    Nb, Lb = rng.randint(1030, 1060), 8
+    brecs = [(rng.randrange(Nb), rng.randrange(Nb), [rng.choice([0, 0, 1, 1, 2]) for _ in range(Lb)]) for _ in range(rng.randint(2500, 4000))]
+    big = RunCase(rng.random() < 0.5, rng.random() < 0.5, "r", 2, brecs, Lb, r=1, maxit=1, seed=rng.randint(0, 2 ** 32))
+    nrep = 2 if self.tier == "quick" else 4
+    biglines = [big.line("oibig%d" % j) for j in range(nrep)]
     if not self.bdir:
         return
+    bo, bcr = C.run_impl(self.bdir, biglines)
+    for cid, line, err, code in bcr:
+        self.on_crash("history", cid, line, err, code)
+    self.cov["evaluations"] += nrep
+    if "oibig0" in bo:
+        self.monitor("repetitions of one large call (N > 1024, 8 layers)", nrep - 1)
+        for j in range(1, nrep):
+            x = bo.get("oibig%d" % j)
+            diff = [f for f in sorted(set(bo["oibig0"]) | set(x or {})) if (x or {}).get(f) != bo["oibig0"].get(f)]
+            if x is not None and diff:
+                self.violate(key, "the same call on a network with %d vertices and %d layers, repeated in one process, gives different %s "
+                             "(repetition %d vs the first)" % (Nb, Lb, ",".join(diff[:6]), j),
+                             {"case": biglines[0], "differing_fields": diff, "first": {f: bo["oibig0"].get(f) for f in diff[:3]},
+                              "repetition": {f: x.get(f) for f in diff[:3]}})
+                break
     fwd, cr1 = C.run_impl(self.bdir, lines)
     rev, cr2 = C.run_impl(self.bdir, lines[::-1])
     for cid, line, err, code in cr1 + cr2:
